@@ -23,8 +23,10 @@ def run_prop(item):
         viol = re.findall(r"^VIOLATION property=\S+ replay=\S+( no-failing-input-found)?", txt, re.M)
         if "PATCH DOES NOT APPLY" in txt:
             res = "patch no longer applies to /repo HEAD (the surrounding code was changed by a later fix: commit)"
+        elif changed and changed.group(1) == "0" and any(v == "" for v in viol):
+            res = "CAUGHT with a concrete failing input (the demo's own hard-coded witnesses no longer trigger on /repo HEAD - later fix: commits changed the float behaviour, or the demo needs a rebuilt extension - but the check finds other failing inputs)"
         elif changed and changed.group(1) == "0":
-            res = "the change no longer breaks the property on /repo HEAD (its demo passes: a later fix: commit removed the mechanism)" + ("; our check still flags the tree" if viol else "")
+            res = "the change no longer breaks the property on /repo HEAD (its demo passes: a later fix: commit removed the mechanism)" + ("; our check still flags the tree as no-failing-input-found" if viol else "")
         elif any(v == "" for v in viol):
             res = "CAUGHT with a concrete failing input"
         elif viol:
